@@ -13,6 +13,7 @@ pub mod pipeline;
 pub mod refgraph;
 pub mod stream;
 pub mod deblock;
+pub mod determinism;
 pub mod yuv;
 
 pub fn run(id: &str, tier: Tier) -> Option<Report> {
@@ -31,6 +32,7 @@ pub fn run(id: &str, tier: Tier) -> Option<Report> {
         "C05" => atomic::run(tier),
         "C06" => headers::run(tier),
         "C01" => crash::run(tier),
+        "C17" => determinism::run(tier),
         "C07" => yuv::run_c07(tier),
         "C08" => yuv::run_c08(tier),
         _ => return None,
